@@ -270,7 +270,19 @@ void ModeSimplify(Tape& t, Outcome& o) {
   Manifold base;
   if (kind == 0) { vec3 s(t.real(0.6, 2), t.real(0.6, 2), t.real(0.6, 2)); base = Manifold::Cube(s); d << "Cube"; }
   else if (kind == 1) { base = Manifold::Cube(vec3(2, 1, 1)) + Manifold::Cube(vec3(1, 2, 1)); d << "LatticeUnion"; }
-  else { std::ostringstream sink; base = Manifold::Extrude({gen::GenStar(t, 4, 7, 0.9, 1.3, sink, 0.3)}, t.real(0.6, 1.5)); d << "Extrude(star)"; }
+  double featureSize = 0.5;  // smallest distance by which removing one vertex moves the surface
+  if (kind == 2) {
+    std::ostringstream sink;
+    SimplePolygon star = gen::GenStar(t, 4, 7, 0.9, 1.3, sink, 0.3);
+    base = Manifold::Extrude({star}, t.real(0.6, 1.5)); d << "Extrude(star)";
+    // a nearly flat corner is a feature of size "sagitta": the distance of the vertex from the chord of its neighbours
+    for (size_t i = 0; i < star.size(); ++i) {
+      vec2 a = star[(i + star.size() - 1) % star.size()], b = star[i], c = star[(i + 1) % star.size()];
+      vec2 ac = c - a;
+      double sag = std::abs((b.x - a.x) * ac.y - (b.y - a.y) * ac.x) / std::max(1e-300, la::length(ac));
+      featureSize = std::min(featureSize, sag);
+    }
+  }
   base = gen::GenPose(t, base, 0, d, 0.3);
   int n = t.range(2, 5);
   Manifold fine = t.flip() ? base.Refine(n) : base.RefineToLength(t.real(0.15, 0.5));
@@ -293,7 +305,12 @@ void ModeSimplify(Tape& t, Outcome& o) {
   for (size_t i = 0; i < s1.v.size(); ++i)
     if (oracle::SurfaceDist(s0, s1.v[i]) > tol + 1e-10 * scale) { o.fail("simplify:new-vertex-off-surface", verif::fmt("simplified vertex %zu is %.3g off the original surface", i, oracle::SurfaceDist(s0, s1.v[i]))); return; }
   double v0 = oracle::Volume(s0), v1 = oracle::Volume(s1);
-  if (std::abs(v1 - v0) > 1e-11 * (std::abs(v0) + scale * scale * scale)) { o.fail("simplify:volume", verif::fmt("volume %.17g -> %.17g on a piecewise-planar solid", v0, v1)); return; }
+  // "the surface moves by no more than t (in fact only by rounding) when t is below the feature size":
+  // rounding-only is demanded when t is well below the smallest feature, the bound t*area always
+  const bool below = tol * 4 < featureSize;
+  const double allowed = below ? 1e-11 * (std::abs(v0) + scale * scale * scale) : (tol + 1e-10 * scale) * oracle::Area(s0);
+  if (std::abs(v1 - v0) > allowed) { o.fail("simplify:volume", verif::fmt("volume %.17g -> %.17g on a piecewise-planar solid (t=%.3g, smallest feature %.3g)", v0, v1, tol, featureSize)); return; }
+  o.cls(below ? "t-below-feature-size" : "t-near-feature-size");
   size_t stride = std::max<size_t>(1, s0.v.size() / 80);
   for (size_t i = 0; i < s0.v.size(); i += stride)
     if (oracle::SurfaceDist(s1, s0.v[i]) > tol + 1e-10 * scale) { o.fail("simplify:hausdorff", verif::fmt("original vertex %zu is %.3g from the simplified surface (tolerance %.3g)", i, oracle::SurfaceDist(s1, s0.v[i]), tol)); return; }
